@@ -49,6 +49,13 @@ ContDiff(seen, rec, m) ==
   ELSE IF VarDiff(rec, m) # {} THEN "vars:" \o (CHOOSE v \in VarDiff(rec, m) : TRUE)
   ELSE ""
 
+\* the save document taken after the cont against the machine (records without a save carry sv = <<>>)
+SaveDiff(P, rec, m) ==
+  IF rec.sv = <<>> THEN ""
+  ELSE LET v == Look(P)!SaveView(m)
+           bad == {f \in {"turn", "vars", "counts", "threads", "stream", "choices"} : v[f] # rec.sv[f]} IN
+       IF bad = {} THEN "" ELSE "save:" \o (CHOOSE f \in bad : TRUE)
+
 \* the reference run of the turn is over
 Settled(m) == m.err # "" \/ m.st \in {"wait", "over", "out"}
 
@@ -81,8 +88,9 @@ Play ==
                LET e1 == Look(P)!EndCont(e)
                    seen == Look(P)!Seen(e1) IN
                IF tn > Len(c.turns) \/ k > Len(c.turns[tn]) THEN Fail("Cont.extra", "", seen)
-               ELSE LET d == ContDiff(seen, c.turns[tn][k], e1.m) IN
-                    IF d # "" THEN Fail("Cont." \o d, "", [seen |-> seen, vars |-> e1.m.vars])
+               ELSE LET d0 == ContDiff(seen, c.turns[tn][k], e1.m)
+                        d == IF d0 # "" THEN d0 ELSE SaveDiff(P, c.turns[tn][k], e1.m) IN
+                    IF d # "" THEN Fail("Cont." \o d, "", [seen |-> seen, vars |-> e1.m.vars, save |-> Look(P)!SaveView(e1.m)])
                     ELSE /\ e' = e1 /\ k' = k + 1
                          /\ acc' = Append(acc, [text |-> seen.text, tags |-> seen.tags])
                          /\ ph' = IF seen.can THEN "begin" ELSE "ref"
